@@ -27,6 +27,7 @@ extern "C" int __lsan_do_recoverable_leak_check();
 // 14 justify      u16 seg_idx u16 start_pos i16 font_idx f64 width u8 flags i16 first_pos i16 last_pos -> {"w":..,"lines":..}
 // 15 linebreak    u16 seg_idx u16 pos
 // 16 dump_seg     u16 seg_idx                                                           -> dump (+invariants) of a kept segment
+// 18 positions    u16 seg_idx                                                           -> origins of a kept segment's slots
 // 17 label_by_id  u32 feature id, i16 setting(-1 = feature label) u16 lang u8 enc         -> label json (via gr_face_find_fref)
 struct HSeg { gr_segment *seg = nullptr; std::vector<const gr_slot *> order; std::vector<size_t> line_starts; const gr_font *font = nullptr; };
 
@@ -155,6 +156,14 @@ inline std::string cmd_history(Reader &rd, std::map<uint32_t, std::vector<uint8_
                 std::string gids = "[";
                 for (size_t i = 0; i < hs.order.size(); ++i) { if (i) gids += ","; gids += std::to_string(gr_slot_gid(hs.order[i])); }
                 emit("{\"lines\":" + line_state(hs) + ",\"gids\":" + gids + "]}");
+                break; }
+            case 18: {      // positions of a kept segment's slots, in the original stream order: [[origin x, origin y], ...]
+                unsigned si = rd.u16();
+                if (si >= segs.size() || !segs[si].seg) { emit("null"); break; }
+                HSeg &hs = segs[si];
+                std::string ps = "[";
+                for (size_t i = 0; i < hs.order.size(); ++i) { if (i) ps += ","; ps += "[" + jnum(gr_slot_origin_X(hs.order[i])) + "," + jnum(gr_slot_origin_Y(hs.order[i])) + "]"; }
+                emit("{\"pos\":" + ps + "]}");
                 break; }
             default: rd.bad = true;
             }
